@@ -572,3 +572,144 @@ package pfcp
 //@     invariant [sub]    forall k RuleKey :: k in DP ==> k in old(DP)
 //@     invariant [others] forall id uint64 :: !(id in old(n.sess)) ==> (live(n.local, id) == old(live(n.local, id))) && (old(live(n.local, id)) ==> n.local.sess[id-1] == old(n.local.sess[id-1]))
 //@     invariant [isol]   forall k RuleKey :: !(k.seid in old(n.sess)) ==> ((k in DP) == (k in old(DP))) && ((k in CREATED) == (k in old(CREATED)))
+
+// ---------------------------------------------------------------------------------------------
+// Transactions (C06, C09).  Key of a transaction: fmt.Sprintf("%s-%d", peer address, sequence number).
+
+//@ pure func trKey(a net.Addr, seq uint32) string = sprintf("%s-%d", a, seq)
+
+// reqOK(m): a request the UPF originates (go-upf only sends Session Report Requests)
+//@ pred reqOK(m message.Message) = m != nil && typeis(m, *message.SessionReportRequest) && m.(*message.SessionReportRequest) != nil &&
+//@      m.(*message.SessionReportRequest).Header != nil && m.(*message.SessionReportRequest).Header.Type == 56
+
+//@ pred srvCfg(s *PfcpServer) = s != nil && s.cfg != nil && s.cfg.Pfcp != nil && s.rxTrans != nil && s.txTrans != nil
+
+//@ func (rx *RxTransaction) startTimer() (t *time.Timer)
+//@   requires rx != nil
+//@   ensures [timer] t != nil
+//@   modifies nothing
+//@   serves C06
+//@   at call AfterFunc:
+//@     assert [window] arg0 == rx.timeout
+
+//@ func NewRxTransaction(server *PfcpServer, raddr net.Addr, seq uint32) (rx *RxTransaction)
+//@   requires srvCfg(server)
+//@   requires server.cfg.Pfcp.MaxRetrans < 255
+//@   ensures [init]   fresh(rx) && rx.server == server && rx.raddr == raddr && rx.seq == seq && rx.id == trKey(raddr, seq) &&
+//@                    rx.msgBuf == nil && rx.timer != nil
+//@   ensures [window] rx.timeout == server.cfg.Pfcp.RetransTimeout * time.Duration(server.cfg.Pfcp.MaxRetrans + 1)
+//@   modifies nothing
+//@   serves C06
+
+//@ func (rx *RxTransaction) send(rsp message.Message) (err error)
+//@   requires rx != nil && rx.server != nil && rx.server.conn != nil && rsp != nil
+//@   ensures [cached] err == nil ==> len(rx.msgBuf) > 0
+//@   ensures [same]   rx.raddr == old(rx.raddr) && rx.id == old(rx.id) && rx.seq == old(rx.seq)
+//@   modifies rx.msgBuf
+//@   serves C06 C08
+//@   at call WriteTo:
+//@     assert [to]    arg1 == rx.raddr
+//@     assert [bytes] arg0 == rx.msgBuf && len(arg0) > 0
+
+//@ func (rx *RxTransaction) recv(req message.Message, rxTrFound bool) (need bool, err error)
+//@   requires rx != nil && rx.server != nil && rx.server.conn != nil
+//@   ensures [new]  !rxTrFound ==> need && err == nil
+//@   ensures [dup]  rxTrFound ==> !need
+//@   modifies nothing
+//@   serves C06
+//@   at call WriteTo:
+//@     assert [resend] rxTrFound && len(rx.msgBuf) > 0 && arg0 == rx.msgBuf && arg1 == rx.raddr
+
+//@ func (rx *RxTransaction) handleTimeout()
+//@   requires rx != nil && rx.server != nil && rx.server.rxTrans != nil
+//@   ensures [own]  forall k string :: k in rx.server.rxTrans <==> (k in old(rx.server.rxTrans) && k != rx.id)
+//@   ensures [vals] forall k string :: k in rx.server.rxTrans ==> rx.server.rxTrans[k] == old(rx.server.rxTrans[k])
+//@   modifies rx.server.rxTrans[_]
+//@   serves C06
+
+//@ func (tx *TxTransaction) startTimer() (t *time.Timer)
+//@   requires tx != nil
+//@   ensures [timer] t != nil
+//@   modifies nothing
+//@   serves C09
+//@   at call AfterFunc:
+//@     assert [period] arg0 == tx.retransTimeout
+
+//@ func NewTxTransaction(server *PfcpServer, raddr net.Addr, seq uint32) (tx *TxTransaction)
+//@   requires srvCfg(server)
+//@   ensures [init] fresh(tx) && tx.server == server && tx.raddr == raddr && tx.seq == seq && tx.id == trKey(raddr, seq) &&
+//@                  tx.retransTimeout == server.cfg.Pfcp.RetransTimeout && tx.maxRetrans == server.cfg.Pfcp.MaxRetrans &&
+//@                  tx.retransCount == 0 && tx.msgBuf == nil && tx.timer == nil && tx.req == nil
+//@   modifies nothing
+//@   serves C09
+
+//@ func (tx *TxTransaction) send(req message.Message) (err error)
+//@   requires tx != nil && tx.server != nil && tx.server.conn != nil && reqOK(req)
+//@   ensures [stored] tx.req == req && len(tx.msgBuf) > 0 && tx.timer != nil
+//@   ensures [seq]    hdrOf(req).SequenceNumber == tx.seq
+//@   ensures [same]   tx.raddr == old(tx.raddr) && tx.id == old(tx.id) && tx.seq == old(tx.seq) && tx.retransCount == old(tx.retransCount) && tx.maxRetrans == old(tx.maxRetrans)
+//@   modifies tx.req, tx.msgBuf, tx.timer, req.(*message.SessionReportRequest).Header.SequenceNumber
+//@   serves C09
+//@   at call WriteTo:
+//@     assert [to]    arg1 == tx.raddr
+//@     assert [bytes] arg0 == tx.msgBuf && len(arg0) > 0
+
+//@ func (tx *TxTransaction) recv(rsp message.Message) (req message.Message)
+//@   requires tx != nil && tx.timer != nil && tx.server != nil && tx.server.txTrans != nil
+//@   ensures [req]   req == old(tx.req)
+//@   ensures [retire] forall k string :: k in tx.server.txTrans <==> (k in old(tx.server.txTrans) && k != tx.id)
+//@   ensures [vals]  forall k string :: k in tx.server.txTrans ==> tx.server.txTrans[k] == old(tx.server.txTrans[k])
+//@   ensures [stopped] tx.timer == nil
+//@   modifies tx.timer, tx.server.txTrans[_]
+//@   serves C09
+//@   at call Stop:
+//@     assert [timer] recv == old(tx.timer)
+
+//@ func (tx *TxTransaction) handleTimeout()
+//@   requires tx != nil && tx.server != nil && tx.server.conn != nil && tx.server.txTrans != nil && reqOK(tx.req)
+//@   ensures [retry]  old(tx.retransCount) < tx.maxRetrans ==> tx.retransCount == old(tx.retransCount) + 1 && tx.timer != nil &&
+//@                      (forall k string :: (k in tx.server.txTrans) == (k in old(tx.server.txTrans)))
+//@   ensures [giveup] old(tx.retransCount) >= tx.maxRetrans ==> tx.retransCount == old(tx.retransCount) &&
+//@                      (forall k string :: k in tx.server.txTrans <==> (k in old(tx.server.txTrans) && k != tx.id))
+//@   ensures [vals]   forall k string :: k in tx.server.txTrans ==> tx.server.txTrans[k] == old(tx.server.txTrans[k])
+//@   ensures [same]   tx.maxRetrans == old(tx.maxRetrans) && tx.id == old(tx.id) && tx.server == old(tx.server)
+//@   modifies tx.retransCount, tx.timer, tx.server.txTrans[_]
+//@   serves C09
+//@   at call WriteTo:
+//@     assert [resend] old(tx.retransCount) < tx.maxRetrans && arg0 == tx.msgBuf && arg1 == tx.raddr
+//@   at call txtoDispacher:
+//@     assert [abandon] old(tx.retransCount) >= tx.maxRetrans && arg0 == tx.req && arg1 == tx.raddr
+
+// Server-level well-formedness of the transaction tables
+//@ pred rxWF(s *PfcpServer) = forall k string :: k in s.rxTrans ==> s.rxTrans[k] != nil && s.rxTrans[k].server == s && s.rxTrans[k].id == k
+//@ pred txWF(s *PfcpServer) = forall k string :: k in s.txTrans ==> s.txTrans[k] != nil && s.txTrans[k].server == s && s.txTrans[k].id == k &&
+//@                                s.txTrans[k].timer != nil && s.txTrans[k].retransCount <= s.txTrans[k].maxRetrans && reqOK(s.txTrans[k].req)
+//@ pred srvWF(s *PfcpServer) = srvCfg(s) && s.conn != nil && s.driver != nil && s.rnodes != nil && rxWF(s) && txWF(s) && s.txSeq < 1<<24
+
+//@ func (s *PfcpServer) sendReqTo(msg message.Message, addr net.Addr) (err error)
+//@   requires srvWF(s) && reqOK(msg)
+//@   requires !(trKey(addr, s.txSeq) in s.txTrans)
+//@   ensures [reg]     trKey(addr, old(s.txSeq)) in s.txTrans && s.txTrans[trKey(addr, old(s.txSeq))].seq == old(s.txSeq) &&
+//@                     s.txTrans[trKey(addr, old(s.txSeq))].raddr == addr && s.txTrans[trKey(addr, old(s.txSeq))].retransCount == 0
+//@   ensures [wire]    hdrOf(msg).SequenceNumber == old(s.txSeq)
+//@   ensures [others]  forall k string :: k != trKey(addr, old(s.txSeq)) ==> ((k in s.txTrans) == (k in old(s.txTrans))) && (k in s.txTrans ==> s.txTrans[k] == old(s.txTrans[k]))
+//@   ensures [txseq24] s.txSeq < 1<<24
+//@   ensures [wf]      srvWF(s)
+//@   modifies s.txSeq, s.txTrans[_], msg.(*message.SessionReportRequest).Header.SequenceNumber
+//@   serves C09 C10
+
+//@ func (s *PfcpServer) sendRspTo(msg message.Message, addr net.Addr) (err error)
+//@   requires srvWF(s) && msg != nil && hdrOf(msg) != nil
+//@   ensures [wf] srvWF(s)
+//@   modifies s.rxTrans[_].msgBuf
+//@   serves C08 C06
+//@   at call send:
+//@     assert [tr] recv == s.rxTrans[trKey(addr, hdrOf(msg).SequenceNumber)] && arg0 == msg
+
+//@ func (s *PfcpServer) PopBufPkt(seid uint64, pdrid uint16) (pkt []byte, ok bool)
+//@   requires s != nil && lnodeWF(s.lnode) && (live(s.lnode, seid) ==> sessOK(s.lnode.sess[seid-1]))
+//@   ensures [dead] !live(s.lnode, seid) ==> !ok && pkt == nil
+//@   modifies chans(s.lnode.sess[seid-1].q)
+//@   serves C13 C04 C07
+//@   at call Pop:
+//@     assert [sess] live(s.lnode, seid) && recv == s.lnode.sess[seid-1] && arg0 == pdrid
